@@ -27,9 +27,16 @@ pub fn check(f: &Facts, stats: &mut Stats) -> CheckResult {
     let mut shortcut = false;
     let mut tie = false;
     let mut unreachable = false;
+    // large graphs (the deep-chain sweep): a stride of the ordered pairs plus every pair that involves
+    // one of the three smallest / largest ids (the library's search is quadratic in the depth per pair)
+    let big = m.len() > 150;
+    let n_ids = m.len();
     for (ia, a) in m.ids.iter().enumerate() {
         let ta = ont.hpo(*a).unwrap();
         for (ib, b) in m.ids.iter().enumerate() {
+            if big && (ia * 31 + ib * 17) % 97 != 0 && !(ia < 3 || ib < 3 || ia + 3 >= n_ids || ib + 3 >= n_ids) {
+                continue;
+            }
             let tb = ont.hpo(*b).unwrap();
             stats.eval(1);
             let r = guarded(|| -> CheckResult {
@@ -157,12 +164,30 @@ impl Property for C11 {
         }
     }
     fn required_labels(&self, _tier: Tier) -> Vec<&'static str> {
-        vec!["nontrivial", "obsolete-terms", "shorter-route-over-higher-ancestor", "tie", "no-common-ancestor", "diamond"]
+        vec!["nontrivial", "obsolete-terms", "shorter-route-over-higher-ancestor", "tie", "no-common-ancestor", "diamond", "depth>255"]
     }
     fn run_generated(&self, tier: Tier, seed: u64, n: u64, stats: &mut Stats) -> Option<(Value, Failure)> {
         run_typed(strategy(tier), seed, n, stats, check)
     }
     fn replay(&self, case: &Value, stats: &mut Stats) -> Result<CheckResult, String> {
+        if let Some(b) = case.get("deep") {
+            // a plain is_a chain deeper than 255 links with side leaves (distances up to `depth`)
+            let v: (u32, u32) = serde_json::from_value(b.clone()).map_err(|e| e.to_string())?;
+            stats.cases += 1;
+            let r = check(&super::common::deep_chain_facts(v.0, v.1, 0, 0), stats);
+            if r.is_ok() {
+                stats.label("depth>255");
+            }
+            return Ok(r);
+        }
         replay_typed::<Facts, _>(case, stats, check)
+    }
+    fn isolated_plans(&self, tier: Tier, seed: u64) -> Vec<Value> {
+        let mult = [7919u32, 104_729][(seed % 2) as usize];
+        let mut out = vec![json!({"deep": (270u32, mult)})];
+        if tier == Tier::Thorough {
+            out.push(json!({"deep": (600u32, mult)}));
+        }
+        out
     }
 }
